@@ -86,6 +86,15 @@ pub fn extreme_cells() -> Vec<Cell> {
         for &(n, s) in &[(mx / 4.0, 0.0), (mx / 4.0, 0.5), (mx / 4.0, 2.0), (f64::INFINITY, 1.5), (f64::INFINITY, 100.0), (1.0, 0.0), (2.0, 1e10), (1e30, 1.0), (mx / 4.0, 1.0)] {
             v.push(Cell::new(Fam::Zipf, ft, &[n, s]));
         }
+        // Zipf: every combination of extreme n and extreme s the constructor accepts (s = +inf included)
+        for &n in &[1.0, 2.0, 3.0, 10.0, 1e6, mx / 4.0, f64::INFINITY] {
+            for &s in &[0.0, mn, 1e-10, 0.5, 1.0, 1.0 + 1e-6, 2.0, 100.0, 1e10, mx / 4.0, f64::INFINITY] {
+                if n.is_infinite() && s <= 1.0 {
+                    continue; // documented IllDefined
+                }
+                v.push(Cell::new(Fam::Zipf, ft, &[n, s]));
+            }
+        }
         for &a in &[1e-30, 1e-3, 1e3, 1e30] {
             v.push(Cell::new(Fam::SkewNormal, ft, &[0.0, 1.0, a]));
         }
